@@ -158,6 +158,40 @@ type genOpts struct {
 	fleet     bool
 	lag       bool
 	odd       bool
+	profile   string
+	twinAll   bool
+	dryPct    int
+}
+
+// weights of the event kinds per profile (per cent-ish; normalised when drawn)
+var profiles = map[string]map[string]int{
+	"mix":  {"scan": 30, "tick": 12, "pod_arrive": 10, "pod_schedule": 8, "pod_finish": 8, "launch": 5, "register": 7, "cordon": 3, "ext_taint": 3, "ext_untaint": 1, "force": 3, "annotate": 3, "node_gone": 1, "asg_edit": 2, "restart": 1, "lag": 1, "shuffle": 2},
+	"down": {"scan": 35, "tick": 6, "pod_arrive": 3, "pod_schedule": 3, "pod_finish": 14, "launch": 3, "register": 8, "cordon": 2, "ext_taint": 1, "ext_untaint": 3, "force": 1, "annotate": 2, "node_gone": 0, "asg_edit": 2, "restart": 1, "lag": 0, "shuffle": 6},
+	"reap": {"scan": 30, "tick": 20, "pod_arrive": 3, "pod_schedule": 5, "pod_finish": 10, "launch": 2, "register": 4, "cordon": 4, "ext_taint": 8, "ext_untaint": 1, "force": 5, "annotate": 5, "node_gone": 1, "asg_edit": 1, "restart": 3, "lag": 0, "shuffle": 3},
+	"up":   {"scan": 32, "tick": 8, "pod_arrive": 18, "pod_schedule": 6, "pod_finish": 5, "launch": 5, "register": 8, "cordon": 2, "ext_taint": 6, "ext_untaint": 0, "force": 4, "annotate": 1, "node_gone": 0, "asg_edit": 2, "restart": 1, "lag": 0, "shuffle": 4},
+	"lock": {"scan": 38, "tick": 16, "pod_arrive": 14, "pod_schedule": 4, "pod_finish": 4, "launch": 4, "register": 6, "cordon": 5, "ext_taint": 4, "ext_untaint": 0, "force": 3, "annotate": 0, "node_gone": 0, "asg_edit": 2, "restart": 2, "lag": 0, "shuffle": 1},
+}
+
+func drawKind(r *rand.Rand, profile string) string {
+	w, ok := profiles[profile]
+	if !ok {
+		w = profiles["mix"]
+	}
+	keys := make([]string, 0, len(w))
+	total := 0
+	for k, v := range w {
+		keys = append(keys, k)
+		total += v
+	}
+	sort.Strings(keys)
+	x := r.Intn(total)
+	for _, k := range keys {
+		if x < w[k] {
+			return k
+		}
+		x -= w[k]
+	}
+	return "scan"
 }
 
 func genCfg(r *rand.Rand, o genOpts) world.Cfg {
@@ -173,7 +207,7 @@ func genCfg(r *rand.Rand, o genOpts) world.Cfg {
 	if r.Intn(4) == 0 {
 		c.MaxAge = 3 + r.Intn(3)
 	}
-	c.Dry = r.Intn(8) == 0
+	c.Dry = r.Intn(100) < o.dryPct
 	c.Starve = r.Intn(4) == 0
 	c.Auto = r.Intn(6) == 0
 	c.Effect = []string{"", "NoSchedule", "NoExecute", "PreferNoSchedule"}[r.Intn(4)]
@@ -199,7 +233,7 @@ func genInit(r *rand.Rand, o genOpts) *world.State {
 			cfg.Max = n + r.Intn(3)
 		}
 		kc, km := 4+2*r.Intn(4), 4+2*r.Intn(4)
-		gs := world.Group{Cfg: cfg, Api: map[string]world.NodeObj{}, Pods: []world.Pod{}, Order: []string{}, Accepted: world.Never,
+		gs := world.Group{Cfg: cfg, Api: world.NodeMap{}, Pods: []world.Pod{}, Order: []string{}, Accepted: world.Never,
 			Ctl: world.Ctl{LockAt: world.Never, LastOut: world.Never, Tracker: []string{}}}
 		var members []string
 		for i := 1; i <= n; i++ {
@@ -263,35 +297,34 @@ func genStep(r *rand.Rand, w *world.World, o genOpts, nextID map[string]int) Eve
 		}
 		return 4 + 2*r.Intn(4), 4 + 2*r.Intn(4)
 	}
-	x := r.Intn(100)
-	switch {
-	case x < 30:
+	switch drawKind(r, o.profile) {
+	case "scan":
 		e := Event{Ev: "scan"}
 		if r.Intn(100) < o.faultPct {
 			e.Faults = genFaults(r, st, g)
 		}
-		e.Twin = r.Intn(6) == 0
+		e.Twin = o.twinAll || r.Intn(6) == 0
 		return e
-	case x < 42:
+	case "tick":
 		return Event{Ev: "tick"}
-	case x < 52:
+	case "pod_arrive":
 		kc, km := size()
-		if r.Intn(5) == 0 { // a burst is several arrivals; one big pod does as well
+		if r.Intn(5) == 0 { // one big pod does as well as a burst
 			return Event{Ev: "pod_arrive", G: g, A: kc, B: 1 + r.Intn(km)}
 		}
 		return Event{Ev: "pod_arrive", G: g, A: 1 + r.Intn(kc/2+1), B: 1 + r.Intn(km/2+1)}
-	case x < 60:
+	case "pod_schedule":
 		return Event{Ev: "pod_schedule", G: g, N: pick()}
-	case x < 68:
+	case "pod_finish":
 		n := pick()
 		if r.Intn(4) == 0 {
 			n = ""
 		}
 		return Event{Ev: "pod_finish", G: g, N: n}
-	case x < 73:
+	case "launch":
 		nextID[g]++
 		return Event{Ev: "launch", G: g, N: fmt.Sprintf("%s%d", g[:1], 100+nextID[g])}
-	case x < 80:
+	case "register":
 		// register an instance that has no node yet
 		for _, m := range gs.Asg.Members {
 			if _, ok := gs.Api[m]; !ok {
@@ -307,40 +340,39 @@ func genStep(r *rand.Rand, w *world.World, o genOpts, nextID map[string]int) Eve
 			}
 		}
 		return Event{Ev: "tick"}
-	case x < 83:
+	case "cordon":
 		return Event{Ev: []string{"cordon", "uncordon"}[r.Intn(2)], N: pick()}
-	case x < 86:
-		kinds := []string{"now", "old", "old", "bad", "future", "zero"}
+	case "ext_taint":
+		kinds := []string{"now", "old", "old", "old", "bad", "future", "zero"}
 		k := kinds[r.Intn(len(kinds))]
 		at := st.Now
 		if k == "old" {
 			at = st.Now - 1 - r.Intn(4)
 		}
 		return Event{Ev: "ext_taint", N: pick(), S: k, A: at}
-	case x < 87:
+	case "ext_untaint":
 		return Event{Ev: "ext_untaint", N: pick()}
-	case x < 90:
+	case "force":
 		return Event{Ev: []string{"force", "force", "unforce"}[r.Intn(3)], N: pick()}
-	case x < 93:
+	case "annotate":
 		return Event{Ev: []string{"annotate", "annotate", "unannotate"}[r.Intn(3)], N: pick(), S: []string{"x", "reason", ""}[r.Intn(3)]}
-	case x < 94:
+	case "node_gone":
 		return Event{Ev: "node_gone", N: pick()}
-	case x < 96:
+	case "asg_edit":
 		if gs.Cfg.Auto || r.Intn(3) == 0 {
 			mn := r.Intn(3)
 			return Event{Ev: "asg_edit", G: g, A: mn, B: mn + 1 + r.Intn(o.maxNodes+2)}
 		}
 		return Event{Ev: "shuffle"}
-	case x < 97:
+	case "restart":
 		return Event{Ev: "restart"}
-	case x < 98:
+	case "lag":
 		if o.lag {
 			return Event{Ev: []string{"lag_on", "lag_off"}[r.Intn(2)], G: g}
 		}
 		return Event{Ev: "shuffle"}
-	default:
-		return Event{Ev: "shuffle"}
 	}
+	return Event{Ev: "shuffle"}
 }
 
 func genFaults(r *rand.Rand, st *world.State, g string) []world.Fault {
@@ -382,6 +414,9 @@ func cmdDrive(fs *flag.FlagSet, args []string) {
 	fleet := fs.Bool("fleet", false, "allow fleet-mode groups (each fleet scale-up costs >= 1 s)")
 	lag := fs.Bool("lag", false, "allow lagging lister views")
 	odd := fs.Bool("odd", false, "allow odd node shapes")
+	profile := fs.String("profile", "mix", "event mix: mix | down | reap | up | lock")
+	twinAll := fs.Bool("twin", false, "twin-scan a clone with a fresh controller at every scan")
+	dryPct := fs.Int("dry", 12, "percent of groups in dry mode")
 	trace := fs.String("trace", "trace.ndjson", "output: scan lines for TLC")
 	events := fs.String("events", "", "output: all events (for replay)")
 	par := fs.Int("par", 1, "parallel histories (metrics are process-global: keep 1 when gauges matter)")
@@ -393,7 +428,7 @@ func cmdDrive(fs *flag.FlagSet, args []string) {
 		ev = newOut(*events)
 		defer ev.close()
 	}
-	o := genOpts{maxNodes: *maxNodes, maxGroups: *maxGroups, steps: *steps, faultPct: *faultPct, fleet: *fleet, lag: *lag, odd: *odd}
+	o := genOpts{maxNodes: *maxNodes, maxGroups: *maxGroups, steps: *steps, faultPct: *faultPct, fleet: *fleet, lag: *lag, odd: *odd, profile: *profile, twinAll: *twinAll, dryPct: *dryPct}
 	var wg sync.WaitGroup
 	sem := make(chan struct{}, *par)
 	var mu sync.Mutex
